@@ -747,37 +747,33 @@ func (ck *checker) check(how, args string, ex expect, obs callObs, path string, 
 			ranTwice[slotOfTag(t)] = true
 		}
 	}
-	var kinds []string
-	if 0 < len(ranRemoved) {
-		kinds = append(kinds, "ran-removed-or-replaced:"+slotList(ranRemoved))
+	// one failure per (kind, qualifier): a single defect then yields a handful of signatures
+	bad := false
+	each := func(kind string, set map[int]bool, what string) {
+		for sl := 0; sl < 4; sl++ {
+			if set[sl] {
+				bad = true
+				ck.fail(sig(kind+":"+slotNames[sl]), detail(what))
+			}
+		}
 	}
-	if 0 < len(ranInapplicable) {
-		kinds = append(kinds, "ran-inapplicable:"+slotList(ranInapplicable))
-	}
-	if 0 < len(ranTwice) {
-		kinds = append(kinds, "ran-twice:"+slotList(ranTwice))
-	}
+	each("ran-removed-or-replaced", ranRemoved, "a method body that is no longer in the method table ran")
+	each("ran-inapplicable", ranInapplicable, "a method that is not applicable to the arguments ran")
+	each("ran-twice", ranTwice, "a method ran twice")
 	switch ex.kind {
 	case exNone:
-		if obs.err == nil && len(kinds) == 0 {
-			kinds = append(kinds, "no-error-without-applicable-method")
-		}
-		if 0 < len(kinds) {
-			ck.fail(sig(strings.Join(kinds, ",")), detail("call without applicable method"))
+		if obs.err == nil && !bad {
+			ck.fail(sig("no-error-without-applicable-method"), detail("call without applicable method"))
 		}
 		return
 	case exLenient:
 		// statement silent about a call without applicable primary: only the
 		// "nothing stale, nothing inapplicable, nothing twice" part is demanded
-		if 0 < len(kinds) {
-			ck.fail(sig("no-primary,"+strings.Join(kinds, ",")), detail("call without applicable primary"))
-		}
 		return
 	}
 	// strict: an applicable primary exists
 	if obs.err != nil {
-		kinds = append(kinds, "error:"+obs.err.Class)
-		ck.fail(sig(strings.Join(kinds, ",")), detail("error instead of dispatch"))
+		ck.fail(sig("error:"+obs.err.Class), detail("error instead of dispatch"))
 		return
 	}
 	if equalStrings(ex.trace, obs.trace) {
@@ -786,10 +782,8 @@ func (ck *checker) check(how, args string, ex expect, obs callObs, path string, 
 		}
 		return
 	}
-	if 0 < len(kinds) {
-		// stale, inapplicable or repeated methods ran: that is the finding
-		ck.fail(sig(strings.Join(kinds, ",")), detail("methods ran that must not run"))
-		return
+	if bad {
+		return // stale, inapplicable or repeated methods ran: that is the finding
 	}
 	// From here on every observed entry is a current, applicable method that ran once.
 	// (A) the :around chain
@@ -828,7 +822,16 @@ func (ck *checker) check(how, args string, ex expect, obs callObs, path string, 
 		}
 		var k []string
 		if 0 < len(ranks) {
-			k = append(k, fmt.Sprintf("skipped#%s-of-%d", strings.Join(ranks, "+"), len(expIns)))
+			// the pattern of the skipped ranks, not the ranks themselves (keeps one defect to a few signatures)
+			even := true
+			for i := range expIns {
+				even = even && ran[expIns[i]] == (i%2 == 0)
+			}
+			if even {
+				k = append(k, fmt.Sprintf("skipped-every-second-of-%d", len(expIns)))
+			} else {
+				k = append(k, "skipped-other")
+			}
 		}
 		if extra {
 			k = append(k, "continued-past-an-around-that-does-not-call-next")
@@ -896,38 +899,33 @@ func (ck *checker) check(how, args string, ex expect, obs callObs, path string, 
 				unexpected[slotOfTag(t)] = true
 			}
 		}
-		var k []string
-		if 0 < len(missing) {
-			k = append(k, "missing:"+slotList(missing))
+		if 0 < len(missing) || 0 < len(unexpected) {
+			each("missing", missing, "an applicable method did not run")
+			each("unexpected", unexpected, "an applicable method ran that must not run in this call")
+			return
 		}
-		if 0 < len(unexpected) {
-			k = append(k, "unexpected:"+slotList(unexpected))
-		}
-		if len(k) == 0 {
-			wrong := map[int]bool{}
-			for s := 0; s < 3; s++ {
-				var a, b []string
-				for _, e := range expInner {
-					if slotOfTag(e) == s {
-						a = append(a, e)
-					}
-				}
-				for _, e := range obsInner {
-					if slotOfTag(e) == s {
-						b = append(b, e)
-					}
-				}
-				if !equalStrings(a, b) {
-					wrong[s] = true
+		wrong := map[int]bool{}
+		for s := 0; s < 3; s++ {
+			var a, b []string
+			for _, e := range expInner {
+				if slotOfTag(e) == s {
+					a = append(a, e)
 				}
 			}
-			if 0 < len(wrong) {
-				k = append(k, "order:"+slotList(wrong))
-			} else {
-				k = append(k, "order:between-qualifiers")
+			for _, e := range obsInner {
+				if slotOfTag(e) == s {
+					b = append(b, e)
+				}
+			}
+			if !equalStrings(a, b) {
+				wrong[s] = true
 			}
 		}
-		ck.fail(sig(strings.Join(k, ",")), detail("wrong methods or order inside the :around chain"))
+		if 0 < len(wrong) {
+			each("order", wrong, "methods of one qualifier ran in the wrong order")
+		} else {
+			ck.fail(sig("order:between-qualifiers"), detail("before/primary/after phases in the wrong order"))
+		}
 		return
 	}
 	if !equalStrings(expOuts, obsOuts) {
